@@ -248,8 +248,8 @@ impl Scenario for TxHistory {
             stub: &["model transaction (plain Vec operations) with a 30-line reference serialiser", "history-free oracle object = Transaction::from_bytes(current serialisation)"],
             assumptions: &["restart-json/cbor events are applied only when the restored object re-serialises to the same wire bytes (coinbase inputs do not; that is C18's subject)", "API preconditions respected by the generator: insert index <= len, set index < len, 32-byte txids, well-formed scripts"],
             required_probes: &["slot_filled_then_mutated", "sighash_after_mutation", "restart_applied", "fork_applied", "flag_class_ISO", "flag_class_O_only", "set_input_with_filled_slot", "set_output_with_filled_slot"],
-            quick_runs: 20_000,
-            thorough_runs: 3_000_000,
+            quick_runs: 40000,
+            thorough_runs: 4000000,
             rlimit_as: 8 << 30,
             alloc_abort_is_violation: true,
         }
